@@ -45,9 +45,10 @@ func init() {
 
 // events of one supergraph node of a layout function (called in the node's alias context)
 type c19LineEvent struct {
-	kind string // fresh | append | flush | copy | nilvar | reset | otherLines | otherVar
+	kind string // fresh | append | flush | copy | nilvar | reset | commit | otherLines | otherVar
 	v    types.Object
 	src  types.Object // copy: the variable whose value is copied
+	cont types.Object // flush, reset, commit: the container of lines (nil: Model.lines, else a builder variable)
 }
 
 func (pi *c19PagerInfo) lineVarOf(e ast.Expr) types.Object {
@@ -142,7 +143,11 @@ func (pi *c19PagerInfo) events(sn *c19SNode) []c19LineEvent {
 				if len(s.Lhs) == len(s.Rhs) {
 					rhs = unparen(s.Rhs[i])
 				}
-				if c19SelField(info, l) == pi.fLines {
+				if _, isCont := pi.linesContainer(l); isCont {
+					if sn.pseudo == "post" {
+						out = append(out, c19LineEvent{kind: "otherLines"}) // a container assigned the result of a helper
+						continue
+					}
 					out = append(out, pi.linesStore(l, rhs))
 					continue
 				}
@@ -155,29 +160,35 @@ func (pi *c19PagerInfo) events(sn *c19SNode) []c19LineEvent {
 					}
 				}
 			}
-		case *ast.DeclStmt:
-			gd, ok := s.Decl.(*ast.GenDecl)
-			if !ok || gd.Tok != token.VAR {
-				return true
-			}
-			for _, sp := range gd.Specs {
-				vs, ok := sp.(*ast.ValueSpec)
-				if !ok {
+		case *ast.ValueSpec:
+			// go/cfg lowers `var x T = v` to one ValueSpec node per specification
+			vs := s
+			for i, name := range vs.Names {
+				o := info.ObjectOf(name)
+				if o == nil || name.Name == "_" {
 					continue
 				}
-				for i, name := range vs.Names {
-					o := info.ObjectOf(name)
-					if o == nil || name.Name == "_" || !pi.isLinePtr(o.Type()) {
-						continue
-					}
+				if pi.builders[o] {
 					switch {
 					case len(vs.Values) == 0:
-						out = append(out, c19LineEvent{kind: "nilvar", v: o})
+						out = append(out, c19LineEvent{kind: "reset", cont: o})
 					case len(vs.Values) == len(vs.Names):
-						add(pi.assignEvent(o, vs.Values[i]))
+						out = append(out, pi.linesStore(name, unparen(vs.Values[i])))
 					default:
-						out = append(out, c19LineEvent{kind: "otherVar", v: o})
+						out = append(out, c19LineEvent{kind: "otherLines"})
 					}
+					continue
+				}
+				if !pi.isLinePtr(o.Type()) {
+					continue
+				}
+				switch {
+				case len(vs.Values) == 0:
+					out = append(out, c19LineEvent{kind: "nilvar", v: o})
+				case len(vs.Values) == len(vs.Names):
+					add(pi.assignEvent(o, vs.Values[i]))
+				default:
+					out = append(out, c19LineEvent{kind: "otherVar", v: o})
 				}
 			}
 		}
@@ -329,6 +340,7 @@ func c19PagerLayout(c *Ctx, pi *c19PagerInfo, fi *FuncInfo, fl *c19Flow) {
 		}
 	}
 	undec := ""
+	pi.builders = pi.findBuilders(fl)
 	evCache := map[*c19SNode][]c19LineEvent{}
 	eventsOf := func(sn *c19SNode) []c19LineEvent {
 		if evs, ok := evCache[sn]; ok {
@@ -339,7 +351,7 @@ func c19PagerLayout(c *Ctx, pi *c19PagerInfo, fi *FuncInfo, fl *c19Flow) {
 		evCache[sn] = evs
 		return evs
 	}
-	nAppend := 0
+	nAppend, nFlush := 0, 0
 	for _, b := range fl.blks {
 		for i, sn := range b.nodes {
 			for k, ev := range eventsOf(sn) {
@@ -350,6 +362,9 @@ func c19PagerLayout(c *Ctx, pi *c19PagerInfo, fi *FuncInfo, fl *c19Flow) {
 				case "otherVar":
 					undec = "a line variable is assigned something other than a fresh &line{}, nil or another line variable: " + sn.short()
 				case "flush", "append", "fresh", "copy", "nilvar":
+					if ev.kind == "flush" {
+						nFlush++
+					}
 					addVar(ev.v)
 					addVar(ev.src)
 					if ev.kind == "append" {
@@ -361,6 +376,9 @@ func c19PagerLayout(c *Ctx, pi *c19PagerInfo, fi *FuncInfo, fl *c19Flow) {
 	}
 	if undec == "" && nAppend == 0 {
 		undec = "no append of a cell to the pending line was recognised (x.chars = append(x.chars, v), inline or in a method of the line type)"
+	}
+	if undec == "" && nFlush == 0 {
+		undec = "no store of a line in Model.lines was recognised (lines = append(lines, l), directly or through a local slice that is stored in Model.lines)"
 	}
 	if undec == "" && len(lvars) == 0 {
 		undec = "no pending-line variable found"
@@ -405,12 +423,10 @@ func c19PagerLayout(c *Ctx, pi *c19PagerInfo, fi *FuncInfo, fl *c19Flow) {
 	// ---- the column counter: a local variable compared with Model.width
 	var colObj types.Object
 	var colLtWidth *c19Form
-	for _, b := range fl.blks {
-		if b.cnd == nil || b.cnd.Tag != nil {
-			continue
-		}
-		c19With(b.fr, func() {
-			inspectNoLit(b.cnd.Expr, func(n ast.Node) bool {
+	// scanCmp: the comparisons of a condition (read in the frame fr, at the location use)
+	scanCmp := func(fr *c19Frame, cond ast.Expr, use *Loc) {
+		c19With(fr, func() {
+			inspectNoLit(cond, func(n ast.Node) bool {
 				be, ok := n.(*ast.BinaryExpr)
 				if !ok || !isIntegerExpr(info, be.X) || !isIntegerExpr(info, be.Y) {
 					return true
@@ -421,9 +437,8 @@ func c19PagerLayout(c *Ctx, pi *c19PagerInfo, fi *FuncInfo, fl *c19Flow) {
 					return true
 				}
 				l := c19LinOf(info, be.X).plus(c19LinOf(info, be.Y), -1)
-				if len(b.nodes) > 0 {
-					use := b.nodes[len(b.nodes)-1].loc
-					l = c19Resolve(c, b.fr.fi, l, &use)
+				if use != nil {
+					l = c19Resolve(c, fr.fi, l, use)
 				}
 				var widthT, colT *c19Term
 				for _, id := range l.ids() {
@@ -446,6 +461,50 @@ func c19PagerLayout(c *Ctx, pi *c19PagerInfo, fi *FuncInfo, fl *c19Flow) {
 				return true
 			})
 		})
+	}
+	for _, b := range fl.blks {
+		if b.cnd == nil || b.cnd.Tag != nil {
+			continue
+		}
+		var use *Loc
+		if len(b.nodes) > 0 {
+			u := b.nodes[len(b.nodes)-1].loc
+			use = &u
+		}
+		scanCmp(b.fr, b.cnd.Expr, use)
+	}
+	if colObj == nil {
+		// the wrap test named first (full := col >= m.width; if full { ... }): the comparison is the value of a flag
+		for _, b := range fl.blks {
+			for _, sn := range b.nodes {
+				if sn.n == nil || sn.pseudo != "" {
+					continue
+				}
+				var lhs, rhs []ast.Expr
+				switch t := sn.n.(type) {
+				case *ast.AssignStmt:
+					if t.Tok == token.ASSIGN || t.Tok == token.DEFINE {
+						lhs, rhs = t.Lhs, t.Rhs
+					}
+				case *ast.ValueSpec:
+					rhs = t.Values
+					for _, name := range t.Names {
+						lhs = append(lhs, name)
+					}
+				}
+				for k, r := range rhs {
+					if c19IsBoolType(info.TypeOf(r)) && len(lhs) == len(rhs) {
+						u := sn.loc
+						had := colObj != nil
+						scanCmp(sn.fr, r, &u)
+						if !had && colObj != nil {
+							// the flag carries the comparison to the branch: it is tracked with it
+							c19With(sn.fr, func() { fl.goal(fl.boolAtom(lhs[k])) })
+						}
+					}
+				}
+			}
+		}
 	}
 	if colObj != nil {
 		fl.goal(fl.eq(c19PathLin(colObj, nil, false)))
@@ -698,6 +757,19 @@ func c19PagerLayout(c *Ctx, pi *c19PagerInfo, fi *FuncInfo, fl *c19Flow) {
 			return false
 		}
 	}
+	// contEvent: an event of one of the kinds on the given container of lines (nil: Model.lines)
+	contEvent := func(cont types.Object, kinds ...string) func(*c19SNode) bool {
+		return func(sn *c19SNode) bool {
+			for _, ev := range eventsOf(sn) {
+				for _, k := range kinds {
+					if ev.kind == k && ev.cont == cont {
+						return true
+					}
+				}
+			}
+			return false
+		}
+	}
 	// usesCol: the node reads a column variable other than to copy it
 	usesCol := func(sn *c19SNode) bool {
 		if sn.n == nil || colObj == nil || sn.pseudo != "" {
@@ -836,8 +908,29 @@ func c19PagerLayout(c *Ctx, pi *c19PagerInfo, fi *FuncInfo, fl *c19Flow) {
 			}
 			c.check(okAll, "C19.b", fi.Name+"/line stored once", s.sn.pos(),
 				"a line is stored in lines at most once", "the same line can be stored in lines twice")
-			c.check(fl.mustPrecede(hasEvent("reset"), s.c19Pos), "C19.b", fi.Name+"/lines reset before flush", s.sn.pos(),
+			// the container the line goes to was emptied first (Model.lines: emptied, or replaced by a builder's lines)
+			emptied := contEvent(s.ev.cont, "reset")
+			if s.ev.cont == nil {
+				emptied = func(sn *c19SNode) bool { return contEvent(nil, "reset")(sn) || hasEvent("commit")(sn) }
+			}
+			c.check(fl.mustPrecede(emptied, s.c19Pos), "C19.b", fi.Name+"/lines reset before flush", s.sn.pos(),
 				"every path to the flush has emptied lines first", "lines is not emptied before lines are appended: a second Layout (every width change) duplicates the text")
+			if s.ev.cont != nil {
+				// lines collected in a local slice reach the model only through Model.lines = <slice>
+				c.check(fl.mustFollow(s.c19Pos, contEvent(s.ev.cont, "commit")), "C19.b", fi.Name+"/collected lines stored in Model.lines", s.sn.pos(),
+					"every path from the flush to return stores "+s.ev.cont.Name()+" in Model.lines",
+					"a line is appended to the local slice "+s.ev.cont.Name()+" and a return is reached without Model.lines = "+s.ev.cont.Name()+" after it: the line is never presented")
+			} else if len(pi.builders) > 0 {
+				lost := false
+				for _, o := range sites {
+					if o.ev.kind == "commit" && fl.reaches(s.c19Pos, o.c19Pos, nil) {
+						lost = true
+					}
+				}
+				c.check(!lost, "C19.b", fi.Name+"/collected lines stored in Model.lines", s.sn.pos(),
+					"no store Model.lines = <local slice> follows the append to Model.lines",
+					"a line appended to Model.lines is dropped again when Model.lines is overwritten by the local slice afterwards")
+			}
 		case "reset":
 			c.check(!fl.inLoop(s.b), "C19.b", fi.Name+"/lines reset outside the loops", s.sn.pos(),
 				"lines is emptied once, not per character", "lines is emptied inside a loop: earlier lines are dropped")
